@@ -9,15 +9,16 @@ NAMESPACE = 'VL.C01'
 LEAN_MODULES = ['VotelibProofs.Props.C01']
 GEN_MODULES = ['Divisor']
 REQUIRED = ['ha_cap', 'ha_total', 'ha_optimal', 'waiting_iff', 'ha_tie', 'ha_only_voted', 'haResult_cand', 'haResult_tie',
-            'd_hondt_ok', 'sainte_lague_ok', 'danish_ok', 'macau_ok', 'imperiali_ok', 'modified_first_ok', 'cfgOK_of_divisor', 'ha_strict_separation', 'ha_silent_tie_witness', 'ha_is_the_unique_solution']
+            'd_hondt_ok', 'sainte_lague_ok', 'danish_ok', 'macau_ok', 'imperiali_ok', 'modified_first_ok', 'cfgOK_of_divisor', 'ha_strict_separation', 'ha_silent_tie_witness', 'ha_is_the_unique_solution', 'list_machine_refines']
 REQUIRED_COUNTERS = ['tie_batch', 'cap_binds', 'zero_vote_party', 'prev_nonzero_non_dhondt', 'beyond_2^53',
                      'modified_first_coef', 'multi_batch']
 RULE = ('1-6 parties; votes from tie-forcing small sets, zero-vote parties, and [0,10^30]; n_seats 1..12; the five exact '
         'built-in divisors and modified_first_coef wrappers (first coefficient <= divisor(1)); prev_gains with sum <= n '
         '(also for parties without votes); caps in [prev, prev+3] leaving one party eligible. Non-trivial = at least two '
         'parties and a non-error result; distinct by canonical request.')
-NOT_VERIFIED = ['sorted list + bisect_left re-insertion is modelled as an unordered pool from which the whole maximal run '
-                'is taken (only the multiset of the maximal run is observable); tied to the code by the correspondence',
+NOT_VERIFIED = ['the sorted-list machine (ascending list, tail run, pop + bisect_left re-insertion) is modelled by hand line by line '
+                '(VotelibModel/HighestAveragesList.lean) and tied to the code by the correspondence; that it refines the pool machine '
+                'of the theorems is PROVED (list_machine_refines), so no data-structure abstraction is left unverified',
                 'Fraction(n_votes, divisor) is exact rational division']
 EXHAUSTIVE = {'thorough': False}
 NAMES = Names(prefix='p')
